@@ -24,6 +24,16 @@ CHECKS = {
    text="Every command sequence (to the reported depth, from every seed) over node/service/check register and deregister (typical, connect-proxy with upstreams, connect-native, terminating/ingress gateways, instance IDs different from names, peer-imported rows, rename by ID), gateway / service-defaults(destination) / proxy-defaults entries, virtual-IP switches, manual VIPs, coordinates and catalog transactions. On every reached state: no service/check/coordinate without its node, no service check without its instance; kind-service-names and the proxy upstream/downstream table (with per-instance references) recomputed from the registrations; gateway links checked against the config entries (exact => link, link => covered, wildcard => qualifying services, stale wildcard links); virtual IPs injective, free list disjoint, advertised == assigned; kind-service-names, proxy topology and usage counters compared with a store rebuilt from the base rows alone in two canonical orders. On every transition: an assignment is only released when no instance of the service remains.",
    note="gateway-services is not compared with the rebuild because upstream fills ServiceKind and proxy-only wildcard links order-dependently; its links are checked by explicit rules. One known finding (virtual IP released while proxies of the service remain) is listed in known-findings.json.",
    design="§3 C07"),
+ "C08": dict(level="exploration", engine="E3 grid",
+   technique="bounded-exhaustive enumeration of rule sets x names x accesses against an independent evaluator of the documented semantics; exhaustive resolve histories through shared caches vs. a cold resolver",
+   text="For every named resource kind (agent, event, key, node, query, service, session) every assignment of {none, deny, read, (list), write} to a grid of exact and prefix rule slots over the names '', a, ab is parsed and compiled by the real acl package as one policy; two policies over three slots in both orders; three policies over two slots; scalar rules (acl, keyring, operator, mesh, peering incl. the operator fallback) exhaustively. Every name in {'', a, ab, abc, b} x every access level x both default policies is decided by the real authorizer chain and by a 60-line reference (exact wins, else longest prefix, deny>write>list>read across policies, else default). Cache part: every sequence of compilations of ordered policy subsets through one real ACLCaches, after which every subset must decide exactly as a cold compilation.",
+   note="Aggregate methods (ServiceReadAll, KeyWritePrefix, ...) are part of the cache/ordering comparison but have no independent reference. Resolver-level role and identity caching is checked by C09's binary (package consul).",
+   design="§3 C08"),
+ "C13": dict(level="exploration", engine="E3 grid",
+   technique="bounded-exhaustive enumeration of intention sets x write orders x (source, destination, default) queries on the real state store against a reference precedence evaluator",
+   text="Every set of <=K intentions over sources {a, b, *} x {local, peer p1}, destinations {x, *} and actions {allow, deny, L7 permissions} is written to a real store in every order (service-intentions config entries with incrementally growing source lists, a read-modify-write variant that renames a stored source, and legacy rows in legacy mode). For every source in {a, b, c}, peer, destination in {x, y} and both defaults the decision obtained through IntentionMatchOne + IntentionDecision (from the destination side and from the source side) must equal the reference (single most specific match: destination specificity before source specificity, else default); match lists must be in precedence order and identical for all write orders.",
+   note="K=3 quick, 4 thorough. L7 intentions are decided as 'has permissions' (no request is evaluated here; C14 evaluates requests).",
+   design="§3 C13"),
  "C10": dict(level="exploration", engine="E3 grid",
    technique="exhaustive enumeration of command family x pre-state x supplied-index grid on the real FSM; matched/applied/reported oracle on full state dumps",
    text="Every conditional command type (KV cas/delete-cas direct and in transactions, check-index guards, catalog node/service/check cas and delete-cas incl. writers carrying a different node ID, config entry upsert-cas/with-status-cas/delete-cas, CA set-config, CA set-roots, CA set-roots-and-config with the cross product of both indexes, autopilot CAS, ACL token CAS, feature-gate update with both expected indexes) is applied to every pre-state (absent, present, modified, re-created, deleted) with every supplied index class (0, current, previous, future). Matched is computed from the pre-state; applied from a byte comparison of the full 36-table dump; required: matched<=>applied<=>reported, and composites all-or-nothing.",
